@@ -25,7 +25,7 @@ RULE = (
     "predicted to return a NEW object after a modification or eviction and one to return the SAME "
     "object; distinct by (config, operation list)."
 )
-RULE += ' added since: put_string / put_template over cached URIs and get_template of put URIs, has_template vs get_template agreement, postcondition on every put. has_template judged on its own (answers False, never raises a lookup error). freshness through a referring template (include / inherit / namespace / include_file; modify, delete, rewrite, put_string). op touch: a file rewritten with the same content.'
+RULE += ' added since: put_string / put_template over cached URIs and get_template of put URIs, has_template vs get_template agreement, postcondition on every put. has_template judged on its own (answers False, never raises a lookup error). freshness through a referring template (include / inherit / namespace / include_file; modify, delete, rewrite, put_string). op touch: a file rewritten with the same content. the referring scenario also with filesystem_checks off and put_template replacements.'
 ASSUMPTIONS = [
     "virtual clock: mako.codegen.time, mako.util.timeit and the mtime of written module files are "
     "driven by the harness (whole-second steps); sources get their mtime with os.utime",
@@ -333,14 +333,14 @@ def run_referring(case, res):
     every render of main.html then shows what get_template would return for the referred-to template at that moment"""
     clock = _st["clock"]
     ex = _st["exceptions"]
-    for moddir in (False, True):
+    for moddir, fs in ((False, True), (True, True), (False, False)):
         for how in ("include", "inherit", "namespace", "api"):
             base = tempfile.mkdtemp(prefix="c14r-")
             try:
                 root = os.path.join(base, "root")
                 os.makedirs(root)
                 kw = {"module_directory": os.path.join(base, "mods")} if moddir else {}
-                lk = _st["TemplateLookup"](directories=[root], filesystem_checks=True, **kw)
+                lk = _st["TemplateLookup"](directories=[root], filesystem_checks=fs, **kw)
 
                 def write(name, text):
                     fp = os.path.join(root, name)
@@ -362,12 +362,16 @@ def run_referring(case, res):
                 write("part.html", part(1))
                 clock.advance(3)
                 steps = [("render", 1), ("modify", 2), ("render", 2), ("render", 2), ("modify", 3), ("render", 3), ("delete", None), ("render", None),
-                         ("rewrite", 4), ("render", 4), ("put_string", 5), ("render", 5)]
+                         ("rewrite", 4), ("render", 4), ("put_string", 5), ("render", 5), ("put_template", 6), ("render", 6)]
+                if not fs:
+                    # without filesystem checks what is loaded stays, whatever happens on disk; entries put under
+                    # the URI are served from then on
+                    steps = [("render", 1), ("modify", 2), ("render", 1), ("put_string", 5), ("render", 5), ("render", 5), ("put_template", 6), ("render", 6), ("put_string", 7), ("render", 7)]
                 main_obj = None
                 for op, v in steps:
                     clock.advance(2)
                     res.evaluations += 1
-                    what = "referring template (%s, module_directory=%s), step %s %s" % (how, moddir, op, v)
+                    what = "referring template (%s, module_directory=%s, filesystem_checks=%s), step %s %s" % (how, moddir, fs, op, v)
                     if op in ("modify", "rewrite"):
                         write("part.html", part(v))
                         continue
@@ -376,8 +380,12 @@ def run_referring(case, res):
                         continue
                     if op == "put_string":
                         # (a put_string entry has no file: from now on it is what the URI means)
-                        os.remove(os.path.join(root, "part.html"))
+                        if os.path.exists(os.path.join(root, "part.html")):
+                            os.remove(os.path.join(root, "part.html"))
                         lk.put_string("part.html", part(v))
+                        continue
+                    if op == "put_template":
+                        lk.put_template("part.html", _st["Template"](part(v), lookup=lk, uri="part.html"))
                         continue
                     try:
                         t = lk.get_template("main.html")
